@@ -52,9 +52,17 @@ def plant(rng, root):
                 x["oid"] = x["id"]
                 x["id"] = None
                 x["attached"] = []
+            if rng.random() < 0.4:
+                c["cls"] = "MyFrame"        # a custom class that occurs nowhere else: no <customwidgets> entry may survive the subtree
             bad["children"].append(c)
         pos = rng.randrange(len(p["children"]) + 1)
         good = copy.deepcopy(root)
+        if p["kind"] == "widget" and not any(b["name"] == "actions" for b in p["props"]) and rng.random() < 0.3:
+            # an id INSIDE the unresolvable subtree referred to from outside: the reference is undefined (reported), nothing may dangle in the form
+            bad["children"].append({"cls": "QAction", "kind": "action", "id": "faultAct", "oid": "faultAct", "ctx": "CtxOther", "props": [], "callbacks": [],
+                                    "attached": [], "faults": [], "children": []})
+            p["props"].append({"name": "actions", "kind": "expr", "src": "[faultAct]", "w": 0, "r": 0, "const": 1, "conv": 1, "ret": 1, "what": "pseudo", "action_ids": ["faultAct"]})
+            kind += "+outside-reference"
         p["children"].insert(pos, bad)
         return kind, p, root, good
     o = rng.choice(objs)
@@ -195,6 +203,8 @@ def run(ctx):
     ctx.proof_leg(TARGETS, PINS, k_targets=K_TARGETS)
     vh = ctx.need_harness()
     rng = ctx.rng
+    import os
+    os.environ["VERIF_EXTRA_METATYPES"] = C.VERIF + "/data/verif_kinds_metatypes.json"
     n = 2500 if ctx.tier == "thorough" else 400
     cases = []
     for i in range(n):
@@ -215,6 +225,16 @@ def run(ctx):
         if not isinstance(rb, dict) or not isinstance(rg, dict) or "diags" not in rb or "diags" not in rg:
             ctx.violation("preview panics / gives no result on a faulted document: %s" % str(rb)[:200], dict(rep, impl_output=str(rb)[:1000]))
             continue
+        if kind.endswith("+outside-reference"):
+            # decided on the faulted form alone: the reference into the dropped subtree is reported and leaves nothing behind
+            if rb.get("ui") is None:
+                ctx.violation("no form in preview mode for a document with a %s fault" % kind, dict(rep, impl_output=rb["diags"]))
+            elif "faultAct" in rb["ui"]:
+                ctx.violation("an object inside an unresolvable subtree is still referred to by the preview form (dangling reference to faultAct)",
+                              dict(rep, impl_output=rb["ui"], theorem_or_correspondence="C20_subtree_absent / S"))
+            elif len([d for d in rb["diags"] if d["kind"] == "error"]) < 2:
+                ctx.violation("the reference into the unresolvable subtree is not reported", dict(rep, impl_output=rb["diags"], theorem_or_correspondence="C20_errors_reported / S"))
+            continue
         if rg.get("ui") is None or [d for d in rg["diags"] if d["kind"] == "error"]:
             ctx.dist("fault-free-document-not-clean")
             continue
@@ -230,7 +250,7 @@ def run(ctx):
         if ta == tb:
             exact += 1
             continue
-        if kind in OBJECT_FAULTS:
+        if kind.split("+")[0] in OBJECT_FAULTS:
             ctx.violation("unresolvable object type: the form differs from the form of the document without that subtree: %s" % first_diff(ta, tb),
                           dict(rep, impl_output={"faulted": rb["ui"], "fault_free": rg["ui"]}, theorem_or_correspondence="C20_subtree_absent / S"))
             continue
@@ -249,7 +269,7 @@ def run(ctx):
         for x in U.walk(root):
             x["oid"] = x["id"]
         kind, o, bad, good = plant(rng, root)
-        if kind in OBJECT_FAULTS or kind == "ill-typed":
+        if kind.split("+")[0] in OBJECT_FAULTS or kind == "ill-typed":
             continue
         kroots.append(bad)
         kdocs.append(U.render(bad))
